@@ -123,6 +123,14 @@ def build_origin(spec: tuple, src=None) -> Any:
 
             return get_xml_origin(source(spec[1]), spec[2])
         return XMLFileOrigin(source(spec[1]), XMLPath(spec[2]))
+    if k == "nsxml":
+        from pyoak.origin import NO_SOURCE
+
+        return XMLFileOrigin(NO_SOURCE, XMLPath(spec[1]))
+    if k == "nscode":
+        from pyoak.origin import NO_SOURCE
+
+        return CodeOrigin(NO_SOURCE, CodeRange(CodePoint(spec[1], 1, spec[1]), CodePoint(spec[2], 1, spec[2])))
     if k == "whole":
         from pyoak.origin import EntireSourcePosition, Origin
 
@@ -143,6 +151,8 @@ def gen_origin(rng, allow_multi: bool = True, p_no: float = 0.4) -> tuple:
         a = rng.randrange(0, min(n, 12)) if n else 0
         b = rng.randrange(a, min(n, a + 8) + 1)
         return ("code", s, a, min(b, n))
+    if r < 0.57:
+        return rng.choice([("nsxml", "/a/b"), ("nsxml", "/c"), ("nscode", 1, 4), ("nscode", 0, 0)])  # the NoSource singleton with a real position
     if r < 0.6:
         return ("whole", rng.randrange(N_SOURCES))
     if r < 0.7:
@@ -154,6 +164,11 @@ def gen_origin(rng, allow_multi: bool = True, p_no: float = 0.4) -> tuple:
     while len(members) < k:
         m = gen_origin(rng, allow_multi=False, p_no=0.0)
         members.append(m)
+    if rng.random() < 0.4:
+        # all members in one source (the multi-origin then has that source, not a source set)
+        s = rng.randrange(N_SOURCES)
+        members = [(m[0], s) + tuple(m[2:]) if m[0] in ("code", "gen", "xml", "whole") else m for m in members]
+        # touching code ranges of one source would be merged by +; merge_origins (used to build) keeps them apart
     return ("multi", tuple(members))
 
 
@@ -170,6 +185,10 @@ def canon_spec(spec: tuple) -> tuple:
         return ("GeneratedCodeOrigin", _canon_src_idx(spec[1]), ("CodeRange", (0, 1, 0), (0, 1, 0)))
     if k == "xml":
         return ("XMLFileOrigin", _canon_src_idx(spec[1]), ("XMLPath", spec[2]))
+    if k == "nsxml":
+        return ("XMLFileOrigin", ("NoSource",), ("XMLPath", spec[1]))
+    if k == "nscode":
+        return ("CodeOrigin", ("NoSource",), ("CodeRange", (spec[1], 1, spec[1]), (spec[2], 1, spec[2])))
     if k == "whole":
         return ("Origin", _canon_src_idx(spec[1]), ("EntireSourcePosition",))
     if k == "multi":
